@@ -81,6 +81,16 @@ CHECKS = {
          "Fee floor: every (node price vector, chain price vector, gas, fee coin set at/around the floor, mode) of the menus is evaluated on the real MempoolFeeChecker and CombinedMinGasPrices against an exact math/big.Rat oracle (admitted <=> all floors zero or some positive-floor denom paid >= ceil(gas*max(node,chain)); nothing enforced outside checking). Lanes: every message-list/nesting shape for the system lane and every whitelist x payer x granter case for the free lane. Redundant relay: in every state of C06's system, every deposit-message list of length <= 3 over {stale, next, next+1, gap, stranger} with and without a non-deposit message in CheckTx/ReCheckTx/DeliverTx/simulate on the real RedundantBridgeDecorator.",
          "Trusted: as C06; tx objects built with the real TxConfig builder. Bounded: menus as listed in the evidence (chain price menu reduced in the quick tier).",
          "DESIGN.md §6 C20"),
+ "C07": ("model_checking",
+         "exhaustive input product x deviation-bounded choice-point DFS over keeper-call faults (stateless exploration of the real handler)",
+         "Every deposit input of the product start state {fresh, after credited+refunded deposits} x recipient {existing, fresh, malformed, empty, other-prefix bech32, blocked module account, opchild module account} x amount {0, 1, 2^64-1} x denom {new, already paired} x HookMaxGas {0, tight, default} x outer gas meter {infinite, ample finite} x hook payload {none, random bytes, truncated tx, bad signature, wrong sequence, unroutable message, signed [ok], [ok,ok], [ok,fail], [fail], panicking, gas-exhausting} is finalized on the real handler; then, Mode C: an error (where the method can return one) and a panic is injected at every individual call the handler makes through the BankKeeper/AccountKeeper interfaces handed to opchild.NewKeeper and to the hook's signature-verification decorator chain (bound 1 in quick, 2 in thorough; a re-run fails hard if its recorded prefix is not reached again). Oracle: SUCCESS and exactly one of credited / refunded-to-the-L1-sender at the next L2 sequence; failed hooks leave no effects but the signer's sequence; hook gas <= HookMaxGas (outer charge and inner limit); faults inside the mint/transfer cache section or the hook never become handler errors; faults elsewhere are atomic.",
+         "Trusted: as C06; hook target = real bank MsgSend behind a wrapper that panics / burns gas on magic amounts; fault points are interface calls (bank-internal calls are not intercepted).",
+         "DESIGN.md §6 C07"),
+ "C12": ("model_checking",
+         "explicit-state search over role rotations (saturating) + full message-type x signer matrix per state",
+         "L1: every role assignment reachable by UpdateProposer/UpdateChallenger (to X or X2, by governance or by the current holder) on two bridges is enumerated (the state space saturates at 16 assignments); L2: admin changes, executor-list changes (both through ExecuteMessages), bridge-info binding and an executor-change plan executed by the real EndBlocker (saturates at 36 states). In every state every message type of the module is delivered by every signer (governance/authority, every current and past role holder, batch submitter, creator, stranger), built so that it would succeed but for authorization; oracle = the property's role table on the model's current holders (allowed => succeeds, also for a new holder immediately; otherwise fails with an unchanged digest), signer read back through GetMsgV1Signers; ExecuteMessages batches are all-or-nothing with authority-only inner signers; SetBridgeInfo cannot re-point bridge id, address, L1 chain id or a set L1 client id.",
+         "Trusted: as C11/C06. UpdateOracle is probed for its authorization class only (its data path is C15).",
+         "DESIGN.md §6 C12"),
 }
 NOT_YET = {}
 
